@@ -32,16 +32,24 @@ from automata.fa.nfa import NFA
 from automata.regex import regex as rx
 
 from harness import rx_common as R
-from harness.common import Ctx, Toks, call, toks
+from harness import rx_sequences as S
+from harness.common import Ctx, InfraError, Toks, call, toks
 
 LEVEL = "proof"
-RULE = ("cases = (a) strings that are sequences of the documented tokens: every sequence of length ≤3 over the 16 "
+RULE = ("cases = (0) round 3, run first: 1000 (thorough 8000) PROGRAMS of 1–5 calls, each over an alphabet no earlier call "
+        "of the process has touched (1–3 random symbols out of 88 incl. digits, re-special punctuation, non-ASCII; usually "
+        "exactly the default alphabet of the first expression): 0–3 preparatory calls out of validate(r) / validate(r') / a "
+        "tiny from_regex / validate or from_regex of a string outside the grammar (must raise a RegexException) / "
+        "from_regex(r) with the default alphabet, then isequal+issubset+issuperset(r, r', Σ), sometimes again, swapped, or "
+        "over Σ∪{x} before / after; `()` inserted into 70 % of the expressions; every step judged on its own (grammar by "
+        "construction and by the recogniser, comparisons by derivatives); a failing program is re-run in a fresh "
+        "interpreter before it is reported and is its own replay; (a) strings that are sequences of the documented tokens: every sequence of length ≤3 over the 16 "
         "texts ( ) | & ^ * + ? {1,2} {0,0} {,} {2,} . a b blank and every sequence of length 4 (thorough 5) over the 12 "
         "texts ( ) | & ^ * + ? {1,2} . a blank, then random longer ones shaped to be nearly valid — each with the "
         "default and with an explicit alphabet; (b) malformed strings (lone braces, odd bounds, white space): "
         "model=code, and for numeric brace groups the agreement / regex-error-type rule on the real code; (c) pairs of "
         "ASTs rendered to strings compared over a common explicit alphabet (1–7 symbols, incl. 1 , - é 𝒳); "
-        "non-trivial = (a) ≥3 tokens with at least one parenthesis or operator, "
+        "non-trivial = (0) a program of ≥2 calls, (a) ≥3 tokens with at least one parenthesis or operator, "
         "(c) both languages non-empty and not both trivial; distinct = distinct strings / pairs")
 ASSUMPTIONS = [
     "documented tokens in the grammar part: symbols, operators, parentheses, {m,n} {m,} {,n} with ASCII decimal bounds, blanks; "
@@ -49,6 +57,8 @@ ASSUMPTIONS = [
     "(a lone brace lexed as a symbol and non-numeric bounds are outside the documented syntax: model = code only)",
     "comparisons take an explicit common alphabet (with input_symbols=None each regex infers its own alphabet, F17)",
     "Python re / int() are modelled by hand (trusted)",
+    "the property is about inputs, so no answer may depend on earlier calls: programs of calls are judged step by step by "
+    "history-free oracles; the Lean model is a pure function (it has no history to compare)",
 ]
 EXPLANATION = ("C11_* theorems: validate_tokens accepts exactly the token grammar, which is exactly when the model compiles; "
                "errors are RegexException subclasses; the comparison helpers reduce to language (in)equality via C10. "
@@ -136,9 +146,31 @@ def model_pipe2(ctx: Ctx, s: str, sigma):
     return v, c, c2
 
 
+# Every case evaluated in this process, in order, as its replay record (kind tokens / string / cmp): if a failing case
+# turns out to depend on the calls made before it (harness/fresh.py), the earlier cases are its replay.
+CALLS: list = []
+
+
+def marks_calls(fn):
+    """Failures recorded by a case function remember how many cases had been evaluated (their own included)."""
+    import functools
+
+    @functools.wraps(fn)
+    def wrapper(ctx, *a, **kw):
+        n = len(ctx.prop_fails)
+        try:
+            return fn(ctx, *a, **kw)
+        finally:
+            for f in ctx.prop_fails[n:]:
+                f["_calls"] = len(CALLS)
+    return wrapper
+
+
+@marks_calls
 def check_tokens(ctx: Ctx, texts: List[str], origin: str):
     """A string that is a sequence of documented tokens."""
     s = "".join(texts)
+    CALLS.append(dict(op="case", kind="tokens", regex=s, tokens=list(texts)))
     kinds = [KIND[x] for x in texts if x.strip()]
     rv = call(lambda: rx.validate(s))
     rc = call(lambda: NFA.from_regex(s))
@@ -212,6 +244,7 @@ def has_bad_bound(s: str) -> bool:
     return False
 
 
+@marks_calls
 def check_malformed(ctx: Ctx, s: str, origin: str):
     """Arbitrary strings (lone braces, odd bounds, white space).  Model = code on every one; and
     — theorems C11_validate_from_regex_any_default / C11_lex_error_kind — on the real code:
@@ -220,6 +253,7 @@ def check_malformed(ctx: Ctx, s: str, origin: str):
     unless a brace group has a non-numeric bound that class is a RegexException subclass."""
     from harness.ops.C10 import stage_model, stage_observe
     from automata.regex import parser as rxparser
+    CALLS.append(dict(op="case", kind="string", regex=s))
     ctx.stat(origin)
     ctx.case(None)
     rv = call(lambda: rx.validate(s))
@@ -267,7 +301,15 @@ def check_malformed(ctx: Ctx, s: str, origin: str):
 def check_cmp(ctx: Ctx, e1, e2, sigma: str, origin: str, style_rng=None):
     s1 = R.render(e1, "extra" if style_rng else "min", style_rng)
     s2 = R.render(e2, "extra" if style_rng else "min", style_rng)
+    check_cmp_strings(ctx, s1, s2, e1, e2, sigma, origin)
+
+
+@marks_calls
+def check_cmp_strings(ctx: Ctx, s1: str, s2: str, e1, e2, sigma, origin: str):
+    """Two renderings with their ASTs over a common alphabet (also the replay entry: the same library calls in the
+    same order as in the run)."""
     sig = frozenset(sigma)
+    CALLS.append(dict(op="case", re1=s1, re2=s2, input_symbols=sorted(sigma), ast1=e1, ast2=e2, kind="cmp"))
     sizes = [call(lambda s=s: len(NFA.from_regex(s, input_symbols=sig).states)) for s in (s1, s2)]
     if any(r[0] == "ok" and r[1] > 40 for r in sizes):
         ctx.stat("cmp_skipped_large_nfa")
@@ -292,6 +334,11 @@ def check_cmp(ctx: Ctx, e1, e2, sigma: str, origin: str, style_rng=None):
         bad = [f"{n}={r[1]} (languages say {w[1]})" for n, r, w in zip(names, real, want) if r != w]
         ctx.prop_fail(f"{s1!r} vs {s2!r} over {sorted(sigma)}: " + "; ".join(bad), case, None)
         return
+    model_cmp(ctx, s1, s2, sigma, case, real)
+
+
+def model_cmp(ctx: Ctx, s1: str, s2: str, sigma, case: dict, real):
+    """Correspondence of one comparison: the model helpers' answers against the real ones."""
     line = ctx.driver("drv_regex").ask(toks("RX_CMP", R.enc_str(s1), R.enc_str(s2), R.enc_syms(sorted(sigma))))
     t = Toks(line)
     k = t.next()
@@ -348,8 +395,124 @@ def rand_nearly_valid(rng, max_len: int) -> List[str]:
     return texts
 
 
-def run(ctx: Ctx):
+_KIND1 = {"(": "lp", ")": "rp", "|": "bin", "&": "bin", "^": "bin", "*": "post", "+": "post", "?": "post"}
+
+
+def kinds_of(s: str) -> List[str]:
+    """Token kinds of a string made of documented tokens over ANY symbols (for `in_grammar`)."""
+    out, i = [], 0
+    while i < len(s):
+        c = s[i]
+        if c in " \t":
+            i += 1
+        elif c == "{":
+            i = s.index("}", i) + 1
+            out.append("post")
+        else:
+            out.append(_KIND1.get(c, "atom"))
+            i += 1
+    return out
+
+
+def judge_program_json(text: str):
+    """Entry point of the fresh-interpreter confirmation and of `replay`: run a recorded program of calls through
+    the real library, every step judged by its own oracle; returns the list of failures."""
+    ctx = Ctx("C11", "quick", 0)
+
+    def case_step(st):
+        n = len(ctx.prop_fails)
+        replay_case(ctx, st)
+        return [f["what"] for f in ctx.prop_fails[n:]]
+
+    try:
+        return S.judge_steps(json.loads(text), extra_ops={"case": case_step})
+    except S.Skip:
+        return []
+    finally:
+        for d in ctx.drivers.values():
+            d.close()
+
+
+def replay_case(ctx: Ctx, rp: dict):
+    """Re-evaluate one recorded case (kind cmp / string / tokens) with the same library calls as in the run."""
+    if rp.get("kind") == "cmp":
+        check_cmp_strings(ctx, rp["re1"], rp["re2"], to_ast(rp["ast1"]), to_ast(rp["ast2"]), "".join(rp["input_symbols"]), "replay")
+    elif rp.get("kind") == "string":
+        check_malformed(ctx, rp["regex"], "replay")
+    else:
+        check_tokens(ctx, rp["tokens"], "replay")
+
+
+def settle_replays(ctx: Ctx):
+    """The failure run.py prints must fail as the first thing a fresh interpreter does; otherwise its replay becomes
+    recorded earlier calls / cases of the run followed by it (harness/fresh.py)."""
+    from harness import fresh
+
+    def make_replay(steps, rp, n_history):
+        return dict(kind="sequence", steps=steps, failing_step=n_history + rp.get("failing_step", 0))
+
+    fresh.settle_replays(ctx, "C11", CALLS, lambda rp: dict(rp, op="case"), S.keys_of, make_replay)
+
+
+def fresh_alphabet_sequences(ctx: Ctx):
+    """Round 3: short programs of calls (validate / from_regex / a failed call → isequal, issubset, issuperset; the
+    same call twice; the same expressions over two alphabets), each over an alphabet NO earlier call of this process
+    has touched, `()` in most expressions.  Must run before every other family (see harness/rx_sequences.py).
+    Judged: validate accepts renderings of ASTs and refuses (with a RegexException) strings that are outside the
+    grammar by construction — cross-checked with `in_grammar`; from_regex succeeds / refuses accordingly; the three
+    helpers against the derivative oracle `ast_cmp`.  The model is asked afterwards (it has no history)."""
     rng = ctx.rng
+    used: set = set()
+    failing: list = []
+    for _ in range(ctx.budget(1000, 8000)):
+        prog = S.gen_program(rng, used, "cmp", rewrite_equiv)
+        if prog is None:
+            ctx.stat("seq_no_fresh_alphabet")
+            continue
+        steps = prog["steps"]
+        for st in steps:
+            if "valid" in st and in_grammar(kinds_of(st["re"])) != st["valid"]:
+                raise InfraError(f"sequence generator: {st['re']!r} marked valid={st['valid']} but the grammar says otherwise")
+        used.update(S.touched_alphabets(steps))
+        CALLS.extend(S.clean(steps))
+        try:
+            bad = S.judge_steps(steps)
+        except S.Skip:
+            ctx.stat("seq_oracle_budget")
+            continue
+        ctx.stat("sequence")
+        ctx.stat(f"seq_steps_{len(steps)}")
+        ctx.stat(f"seq_alphabet_size_{min(len(prog['sigma']), 6)}")
+        for tg in prog["tags"]:
+            ctx.stat("seq_" + tg)
+        ctx.case(json.dumps(S.clean(steps), sort_keys=True) if len(steps) >= 2 else None)
+        if bad:
+            ctx.stat("seq_failing_program")
+            failing.append((prog, bad, len(CALLS)))
+            continue
+        for st in steps:
+            if st["op"] == "cmp":
+                sub, sup = st["_real"][1][1], st["_real"][2][1]
+                ctx.stat(f"seq_cmp_eq{int(sub and sup)}_sub{int(sub)}_sup{int(sup)}")
+                model_cmp(ctx, st["re1"], st["re2"], "".join(st["input_symbols"]),
+                          dict(re1=st["re1"], re2=st["re2"], input_symbols=st["input_symbols"], kind="cmp", origin="sequence"),
+                          tuple(st["_real"]))
+        if ctx.evaluations % 97 == 5:
+            ctx.sample(dict(sequence=S.clean(steps)))
+    S.report_failing(ctx, failing)
+
+
+def run(ctx: Ctx):
+    try:
+        run_families(ctx)
+    finally:
+        settle_replays(ctx)
+
+
+def run_families(ctx: Ctx):
+    rng = ctx.rng
+    # 0. call sequences over fresh alphabets — FIRST, while no alphabet has been used in this process
+    fresh_alphabet_sequences(ctx)
     # 1. corpus: F5 trigger and friends, m24 shapes
     for texts in ([" "], [" ", " "], [], ["(", "a", "|", ")"], ["(", "|", "a", ")"], ["a", "|", ")"], ["(", ")"],
                   ["(", "(", ")", ")"], ["a", "*", "*"], ["(", ")", "*"], [")", "("], ["(", "a"], ["a", ")"],
@@ -441,21 +604,11 @@ def to_ast(x):
 def replay(ctx: Ctx, path: str) -> int:
     data = json.load(open(path))
     rp = data.get("replay", data)
-    if rp.get("kind") == "cmp":
-        # the rendered strings are what failed; re-render deterministically from the ASTs is not
-        # needed: compare the real helpers on the recorded strings against the AST oracle
-        e1, e2 = to_ast(rp["ast1"]), to_ast(rp["ast2"])
-        sig = frozenset(rp["input_symbols"])
-        real = (call(lambda: rx.isequal(rp["re1"], rp["re2"], input_symbols=sig)),
-                call(lambda: rx.issubset(rp["re1"], rp["re2"], input_symbols=sig)),
-                call(lambda: rx.issuperset(rp["re1"], rp["re2"], input_symbols=sig)))
-        sub, sup = R.ast_cmp(e1, e2, rp["input_symbols"])
-        if real != (("ok", sub and sup), ("ok", sub), ("ok", sup)):
-            ctx.prop_fail(f"{rp['re1']!r} vs {rp['re2']!r}: helpers {real}, languages eq={sub and sup} sub={sub} sup={sup}", rp, None)
-    elif rp.get("kind") == "string":
-        check_malformed(ctx, rp["regex"], "replay")
+    if rp.get("kind") == "sequence":
+        for i, what, _detail in judge_program_json(json.dumps(rp["steps"])):
+            ctx.prop_fail(f"after {S.describe(rp['steps'], i)}: {what}", rp, None)
     else:
-        check_tokens(ctx, rp["tokens"], "replay")
+        replay_case(ctx, rp)
     if ctx.prop_fails:
         print(f"VIOLATION property=C11 replay={path}")
         print("  " + ctx.prop_fails[0]["what"])
